@@ -47,7 +47,7 @@ def m1_witnesses(g):
             ("%s_%s_coeffs" % (g.key, tag), "%s.coeffs()(0) = S_(1);" % objc, "%s.coeffs()(0) = S_(1);" % objm),
             ("%s_%s_data" % (g.key, tag), "%s.data()[0] = S_(1);" % objc, "%s.data()[0] = S_(1);" % objm),
         ]
-        for pt in g.parts:
+        for pt in g.parts + g.extra_parts:
             if pt.kind == "group":
                 out.append(("%s_%s_%s_setId" % (g.key, tag, pt.tag), "%s.%s.setIdentity();" % (objc, pt.acc),
                             "%s.%s.setIdentity();" % (objm, pt.acc)))
@@ -131,7 +131,7 @@ def build_ir_witnesses(gs, tier):
                 W.add("m2_%s_%s_%s" % (k, dst, op), sig, pre + dexpr + body, rule="M2", g=g, dst=dst, op=op,
                       expect=(0, g.rep * g.ssize), const_params=[1, 2])
             # --- sub-part views
-            for pt in g.parts:
+            for pt in g.parts + g.extra_parts:
                 st = part_src_type(g, pt)
                 pops = {"assign": "  d.%s = %s(src);\n" % (pt.acc, st)}
                 if pt.kind == "group":
@@ -144,7 +144,7 @@ def build_ir_witnesses(gs, tier):
                           pre + dexpr + body, rule="M2p", g=g, dst=dst, op=op, part=pt,
                           expect=(pt.off * g.ssize, pt.size * g.ssize), const_params=[1])
         # --- const overload reads the same offset
-        for pt in g.parts:
+        for pt in g.parts + g.extra_parts:
             rd = {"vec": "cm.%s" % pt.acc, "group": "cm.%s.coeffs()" % pt.acc, "quat": "cm.%s.coeffs()" % pt.acc}[pt.kind]
             W.add("m2_%s_constread_%s" % (k, pt.tag), "const %s* src, %s* out" % (g.scalar, g.scalar),
                   pre + "  smooth::Map<const GT> cm(src); Eigen::Map<Eigen::Matrix<S_, %d, 1>> o(out);\n  o = %s;\n" % (pt.size, rd),
@@ -204,6 +204,7 @@ def check_ir(rep, gs, tier):
     rep.rule("M2r", "const and mutable sub-part overloads read the documented offsets", minimum=30)
     rep.rule("M2d", "sub-ranges of one group are pairwise disjoint and cover [0,RepSize)", minimum=5)
     rep.rule("M3", "cross-storage construction/assignment/cast copies word k to word k", minimum=80)
+    rep.rule("M7", "in-place *= / += read all operands before the first write to the destination (alias-safe)", minimum=15)
     rep.rule("M1i", "non-mutating operations never write their const inputs", minimum=100)
     hdr = {"map": "include/smooth/detail/macro.hpp"}
     measured_parts = {}
@@ -243,8 +244,17 @@ def check_ir(rep, gs, tier):
                                       "write-set %s differs from the documented region [%d,%d): extra bytes %s, missing bytes %s"
                                       % (_ranges(cov), lo, lo + n, _ranges(set(extra)), _ranges(set(missing))),
                                       None, None, detail={"witness": fname}))
-            if rule == "M2p" and meta["op"] == "assign" and meta["dst"] == "map":
+            if rule == "M2p" and meta["op"] == "assign" and meta["dst"] == "map" and any(meta["part"] is q for q in g.parts):
                 measured_parts.setdefault(g.key, {})[meta["part"].acc] = (cov, meta["part"].kind)
+            if meta["op"] in ("muleq", "pluseq") and meta["dst"] == "map":
+                las = irw.loads_after_stores(ff, 0, set(meta["const_params"]))
+                rep.instance("M7", g.ctype, inst, ok=not las, sample={"witness": fname})
+                if las:
+                    rep.violation(Finding("M7", g.ctype, inst,
+                                          "in-place operation reads an operand after it has started writing its destination "
+                                          "(load `%s` may follow store `%s`): if the operand views the same or an overlapping region (x *= x, "
+                                          "m *= Map over the same buffer) the result is not the value-semantic one; %d such load(s)"
+                                          % (las[0][0], las[0][1], len(las)), "include/smooth/lie_group_base.hpp", None, detail={"witness": fname}))
         elif rule == "M2r":
             pt = meta["part"]
             ok = True
@@ -409,6 +419,24 @@ def check_ast(rep):
             rep.violation(Finding("M5", d.qname, "mutable:" + c.get("name", ""), "mutable data member in a group class", d.file, d.line))
         rep.instance("M5", d.qname, "fields", ok=ok, sample={"file": fe.rel(d.file), "line": d.line, "fields": names})
     rep.instance("M5", "include/smooth", "const_cast", ok=n_cc == 0, nontrivial=True, sample={"count": n_cc})
+    # every accessor that hands out a view into the storage must be in the witness tables (props/groups.py)
+    rep.rule("M0", "every view-returning accessor of the group classes is covered by write-set / read-offset witnesses", minimum=10)
+    covered_names = {"SO3Base": {"quat"}, "SE2Base": {"r2", "so2"}, "SE3Base": {"r3", "so3"}, "GalileiBase": {"r3_v", "r3_p", "r1_t", "so3"},
+                     "SE_K_3Base": {"r3", "so3"}, "BundleBase": {"part"}, "SO2Base": set(), "C1Base": set(), "LieGroupBase": set()}
+    for d in idx:
+        if d.kind in ("CXXMethodDecl",) and d.pattern and d.file and d.file.startswith(fe.INCLUDE) and d.parent is not None:
+            cls = d.parent.qname.split("::")[-1]
+            if cls not in covered_names:
+                continue
+            rt = d.node.get("type", {}).get("qualType", "")
+            ret = rt.split("(")[0]
+            if "Map<" in ret or "MapDispatch<" in ret:
+                nm = d.qname.split("::")[-1]
+                ok = nm in covered_names[cls]
+                rep.instance("M0", d.parent.qname, nm, ok=ok, nontrivial=False, sample={"file": fe.rel(d.file), "line": d.line, "returns": ret[:60]})
+                if not ok:
+                    rep.broke("accessor %s::%s (%s:%s) returns a view into the storage but has no write-set witness in props/groups.py"
+                              % (cls, nm, fe.rel(d.file), d.line))
     rep.unit("umbrella TU (%d headers), filter smooth::" % len(fe.umbrella_headers()))
 
 
